@@ -2,12 +2,13 @@
    One command per input line, one result per output line.
 
    route <av|sf|sc> <op 0..10>                 -> Materialised k | DoComparison k | GridComparison k | Inherited | none
-   red <av|sf|sc> <T|F multi> <max|min>        -> mat max|min  /  grid max|min
+   red <av|sf|sc> <T|F multi> <T|F args> <max|min>   -> mat max|min  /  grid max|min  /  gridargs max|min
    cmpcol <mask> <op> <py|np|bool|other> <bits> <T|F signed> <c>
                                                -> 256 chars 0/1/- : `view <op> operand` for composed bytes 0..255
    sfidx <mask> <xbytes> <positions>           -> values of view[positions] | none
-   index <view> <ix>                           -> <materialise (view[ix])> <np.array(view)[ix]>   (each: none | nd)
-   reduce <max|min> <view>                     -> grid:<t> | grid:none | mat:<max|min>:<nd> | none
+   index <view> <ix> [<ix> ...]                -> <value|view|none> <materialise (view[ix][ix]..)> <np.array(view)[ix][ix]..>   (none | nd)
+   reduce <max|min> <T|F initial> <view> [<ix> ...]
+                                               -> grid:<t> | grid:none | mat:<max|min>:<init|noinit>:<nd> | none | nochain
    view:  1 <xs>  |  2 <k> <row;row;...>       (values comma separated, - = empty)
    ix:    int:<i> | slice:<ps> | adv:<ps> | row:i<i> | row:s<ps> | pair:<ax>:<ax> | zip:<ps>:<js>    ax = i<n> | s<ps>
    nd:    sc:<t> | a1:<n>:<t,t,..> | a2:<n>:<k>:<t,t,..>     t = <scale index>.<offset index>.<grid value>
@@ -106,9 +107,10 @@ let handle line =
   match a.(0) with
   | "route" -> tok_of_route (route_of (cls_of a.(1)) ops.(int_of_string a.(2)))
   | "red" ->
-      (match reduce_route (cls_of a.(1)) (bool_of_tok a.(2)) (red_of a.(3)) with
+      (match reduce_route (cls_of a.(1)) (bool_of_tok a.(2)) (bool_of_tok a.(3)) (red_of a.(4)) with
        | RedMaterialised r -> "mat " ^ red_name r
-       | RedApplyGrid r -> "grid " ^ red_name r)
+       | RedApplyGrid r -> "grid " ^ red_name r
+       | RedApplyGridArgs r -> "gridargs " ^ red_name r)
   | "cmpcol" ->
       let m = z_of_string a.(1) and op = ops.(int_of_string a.(2)) in
       let x = operand_of a.(3) (z_of_string a.(4)) (bool_of_tok a.(5)) (z_of_string a.(6)) in
@@ -120,16 +122,23 @@ let handle line =
        | None -> "none")
   | "index" ->
       let (v, i) = view_of_toks a 1 in
-      let ix = ix_of_tok a.(i) in
-      let vr = (match view_index ap ix v with Some v' -> Some (materialise ap v') | None -> None) in
-      tok_of_ndo vr ^ " " ^ tok_of_ndo (np_index ix (materialise ap v))
+      let ixs = List.map ix_of_tok (Array.to_list (Array.sub a i (Array.length a - i))) in
+      let vr = chain ap ixs v in
+      let kind = (match vr with None -> "none" | Some x -> if is_value x then "value" else "view") in
+      kind ^ " " ^ tok_of_ndo (match vr with Some v' -> Some (materialise ap v') | None -> None)
+      ^ " " ^ tok_of_ndo (np_chain ixs (materialise ap v))
   | "reduce" ->
-      let (v, _) = view_of_toks a 2 in
-      (match reduce_plan ap (red_of a.(1)) v with
-       | PlanGrid (Some f) -> "grid:" ^ tok_of_t f
-       | PlanGrid None -> "grid:none"
-       | PlanMaterialised (r, nd) -> "mat:" ^ red_name r ^ ":" ^ tok_of_nd nd
-       | PlanNone -> "none")
+      let (v, i) = view_of_toks a 3 in
+      let ixs = List.map ix_of_tok (Array.to_list (Array.sub a i (Array.length a - i))) in
+      let init = if bool_of_tok a.(2) then Some (ap Z0 Z0 Z0) else None in
+      (match chain ap ixs v with
+       | None -> "nochain"
+       | Some x ->
+         (match reduce_plan ap (red_of a.(1)) init x with
+          | PlanGrid (Some f) -> "grid:" ^ tok_of_t f
+          | PlanGrid None -> "grid:none"
+          | PlanMaterialised (r, i0, nd) -> "mat:" ^ red_name r ^ ":" ^ (match i0 with Some _ -> "init" | None -> "noinit") ^ ":" ^ tok_of_nd nd
+          | PlanNone -> "none"))
   | c -> failwith ("unknown command " ^ c)
 
 let () =
